@@ -101,6 +101,15 @@ func (w *Worker) hardCheck(pc []*Term, more []*Term, syms []*Term, extra string)
 		if w.shortFallback > 0 {
 			to = w.shortFallback
 		}
+		if !w.cfg.Deadline.IsZero() {
+			// never let a fall-back chain run far past the harness's wall budget
+			if rem := int(time.Until(w.cfg.Deadline).Seconds()) + 30; rem < to {
+				to = rem
+			}
+			if to < 5 {
+				to = 5
+			}
+		}
 		r, m, _ = w.fallback(pc, more, syms, extra, to)
 	}
 	return r, m, time.Since(t0).Milliseconds()
